@@ -14,7 +14,13 @@ func init() {
 	}
 	generators["C05"] = func(p *Plan, r *RNG) { genMix(p, r, "C05") }
 	generators["C08"] = func(p *Plan, r *RNG) { withRace(p, r, 5, func() { genMix(p, r, "C08") }) }
-	generators["C19"] = func(p *Plan, r *RNG) { withRace(p, r, 6, func() { genMix(p, r, "C19") }) }
+	generators["C19"] = func(p *Plan, r *RNG) {
+		if r.Chance(1, 12) {
+			genC19Reservation(p, r)
+			return
+		}
+		withRace(p, r, 6, func() { genMix(p, r, "C19") })
+	}
 }
 
 var chanEdge = []int{0, 1, 0x3FFF, 0x4000, 0x4001, 0x4002, 0x7FFE, 0x7FFF, 0x8000, 0xFFFF, 0x5000}
@@ -305,6 +311,9 @@ func genMix(p *Plan, r *RNG, bias string) {
 	if r.Chance(1, 5) {
 		addOverlap(p, r)
 	}
+	if tcpl && r.Chance(1, 3) {
+		addSlowStreamClient(p, r)
+	}
 }
 
 // addOverlap parks the socket write of one relayed datagram and lets other relayed traffic -
@@ -350,4 +359,71 @@ func addOverlap(p *Plan, r *RNG) {
 	ops = append(ops, ins...)
 	p.Ops = append(ops, p.Ops[i+1:]...)
 	p.Flavor += "+overlap"
+}
+
+// addSlowStreamClient: a client on a TCP listener stops reading while its peers keep sending;
+// the server's writes toward it find the window shut. Later it reads again. Whatever reaches
+// it must still be whole frames, in order, intact.
+func addSlowStreamClient(p *Plan, r *RNG) {
+	if len(p.Clients) == 0 || len(p.Peers) == 0 {
+		return
+	}
+	c := p.Clients[0].ID
+	p.Streams = append(p.Streams, StreamCut{Conn: "srv>*", Window: r.PickInt([]int{1024, 4096, 16384})})
+	p.Flavor += "+slow-client"
+	peer := p.Peers[0]
+	ops := []Op{{Actor: c, Kind: "createperm", At: gap(300 * ms), A: OpArgs{Peer: peer.Addr}},
+		{Actor: c, Kind: "tcp_pause", At: gap(200 * ms)}}
+	for k := r.Range(6, 40); k > 0; k-- {
+		ops = append(ops, Op{Actor: peer.ID, Kind: "peer_send", At: gap(int64(r.Range(1, 60)) * ms), A: OpArgs{Target: c, Len: r.PickInt([]int{100, 700, 1200, 1500})}})
+	}
+	ops = append(ops, Op{Actor: c, Kind: "tcp_resume", At: gap(r.PickI64([]int64{300 * ms, 6 * sec, 31 * sec}))})
+	for k := r.Range(2, 6); k > 0; k-- {
+		ops = append(ops, Op{Actor: peer.ID, Kind: "peer_send", At: gap(int64(r.Range(20, 300)) * ms), A: OpArgs{Target: c, Len: r.PickInt([]int{100, 700, 1200})}})
+	}
+	ops = append(ops, Op{Actor: c, Kind: "binding", At: gap(500 * ms)})
+	p.Ops = append(p.Ops, ops...)
+}
+
+// genC19Reservation: EVEN-PORT with the reserve bit hands out a token for the next port; a second
+// client uses it - sometimes first in a request that is refused (token together with
+// REQUESTED-ADDRESS-FAMILY or EVEN-PORT is a 400, a bad family a 440), which must change
+// nothing: the corrected request with the same token still gets the reserved port.
+func genC19Reservation(p *Plan, r *RNG) {
+	baseSrvConfig(p, r)
+	p.Flavor = "reservation"
+	p.Cfg.AllocLifeS = r.PickInt([]int{0, 600})
+	addClients(p, r, 3)
+	addPeers(p, r, 1)
+	a, b, c := p.Clients[0].ID, p.Clients[1].ID, p.Clients[2].ID
+	p.Ops = append(p.Ops, Op{Actor: a, Kind: "allocate", At: gap(int64(r.Range(10, 300)) * ms), A: OpArgs{Lifetime: -1, Flags: []string{"evenport"}}})
+	// b learns a nonce first (its own plain request is refused for a bad family, or it just probes)
+	p.Ops = append(p.Ops, Op{Actor: b, Kind: "binding", At: gap(200 * ms)})
+	n := r.Intn(3)
+	for i := 0; i < n; i++ {
+		o := Op{Actor: b, Kind: "allocate", At: gap(int64(r.Range(100, 2000)) * ms), A: OpArgs{Lifetime: -1, Target: a, Flags: []string{"usetoken"}}}
+		switch r.Intn(3) {
+		case 0:
+			o.A.Family = r.Pick([]string{"4", "6", "bad"}) // token + family: 400
+		case 1:
+			o.A.Flags = append(o.A.Flags, "evenport") // token + EVEN-PORT: 400
+		case 2:
+			o.A.Transport = "other" // unsupported transport: 442
+		}
+		p.Ops = append(p.Ops, o)
+	}
+	// the proper use, inside or (rarely) outside the 30 seconds
+	g := int64(r.Range(100, 4000)) * ms
+	if r.Chance(1, 6) {
+		g = int64(r.Range(31, 40)) * sec
+	}
+	p.Ops = append(p.Ops, Op{Actor: b, Kind: "allocate", At: gap(g), A: OpArgs{Lifetime: -1, Target: a, Flags: []string{"usetoken"}}})
+	p.Ops = append(p.Ops, Op{Actor: b, Kind: "retransmit", At: gap(300 * ms), A: OpArgs{N: len(p.Ops)}})
+	// a third party tries the same token afterwards (used up, or its port is taken: 508 either way)
+	if r.Chance(1, 2) {
+		p.Ops = append(p.Ops, Op{Actor: c, Kind: "allocate", At: gap(int64(r.Range(100, 2000)) * ms), A: OpArgs{Lifetime: -1, Target: a, Flags: []string{"usetoken"}}})
+	}
+	p.Ops = append(p.Ops, Op{Actor: b, Kind: "createperm", At: gap(300 * ms), A: OpArgs{Peer: p.Peers[0].Addr}})
+	p.Ops = append(p.Ops, Op{Actor: "p1", Kind: "peer_send", At: gap(300 * ms), A: OpArgs{Target: b, Len: 40}})
+	p.QuietNS = 5 * sec
 }
